@@ -19,7 +19,7 @@ Canonical(q) ==
 
 Methods == {"GET", "POST"}
 HostParams == {"absent", "one", "twice"}
-OptParams == {"absent", "zero", "garbage", "opt"}
+OptParams == {"absent", "zero", "garbage", "o1", "o2", "o3", "o4", "o5", "o6", "o7"}
 TsParams == {"absent", "zero", "created", "other"}
 \* ae: the Accept-Encoding header of the client.  The answer has to be readable the way its own Content-Encoding header
 \* says, whatever the client accepts and whether or not the server is configured to compress the script (the harness
@@ -29,7 +29,8 @@ ScriptCases == [method : Methods, hostname : HostParams, option : OptParams, ts 
 
 Emit == /\ phase = "idle" =>
              \A c \in ScriptCases :
-                 PrintT(ToJson([kind |-> "SCRIPT", c |-> c, status |-> ScriptStatus(c.method, c.hostname, c.option, c.ts, c.ims)]))
+                 PrintT(ToJson([kind |-> "SCRIPT", c |-> c, status |-> ScriptStatus(c.method, c.hostname, c.option, c.ts, c.ims),
+                                hides |-> ScriptHides(c.option)]))
         /\ (phase = "done" /\ Canonical(req)) =>
              PrintT(ToJson([kind |-> "CASE", req |-> req, ct |-> IF res = Absent THEN "none" ELSE res,
                             exp |-> Outcome(req, IF res = Absent THEN "none" ELSE res)]))
